@@ -1,5 +1,157 @@
 import FGVerif.Driver.Shared
-/-! driver operations for C01 (stub: replaced by the property's own driver) -/
+import FGVerif.Model.C01Spec
+/-!
+  driver operations for C01 (shared decoders/encoders are reused by C02)
+
+  chain   := (<atomtok> <item>*)
+  atomtok := (e <str>) | w | (l <str>*)
+  item    := (r <bond|_> <str>) | (b <bond|_> <chain>) | (n <bond|_> <chain>)      -- `n` is last
+  bond    := (s <one-char str>) | (c <str> <str>)
+-/
 namespace C01
-def handle : List SExp → Option SExp := fun _ => none
+open SExp
+
+def asChars (x : SExp) : Option Str := (asStr x).map String.toList
+
+def decBond : SExp → Option (Option Bond)
+  | .atom "_" => some none
+  | .list [.atom "s", s] => do
+      match ← asChars s with
+      | [c] => pure (some (.sym c))
+      | _ => none
+  | .list [.atom "c", g, h] => do pure (some (.rc (← asChars g) (← asChars h)))
+  | _ => none
+
+def decAtom : SExp → Option AtomTok
+  | .atom "w" => some .wild
+  | .list [.atom "e", s] => (asChars s).map .elem
+  | .list (.atom "l" :: ls) => (ls.mapM asChars).map .labels
+  | _ => none
+
+mutual
+  def decChain : Nat → SExp → Option Chain
+    | fuel + 1, .list (a :: items) => do pure (.mk (← decAtom a) (← decItems fuel items))
+    | _, _ => none
+  def decItems : Nat → List SExp → Option Items
+    | _, [] => some .nil
+    | fuel + 1, .list [.atom "r", b, id] :: rest => do
+        pure (.ring (← decBond b) (← asChars id) (← decItems fuel rest))
+    | fuel + 1, .list [.atom "b", b, c] :: rest => do
+        pure (.branch (← decBond b) (← decChain fuel c) (← decItems fuel rest))
+    | fuel + 1, [.list [.atom "n", b, c]] => do
+        pure (.next (← decBond b) (← decChain fuel c))
+    | _, _ => none
+end
+
+def asChain (x : SExp) : Option Chain := decChain 100000 x
+
+def ofErr : PErr → SExp
+  | .syntaxError => .list [.atom "raised", .atom "SyntaxError"]
+  | .keyError => .list [.atom "raised", .atom "KeyError"]
+  | .indexError => .list [.atom "raised", .atom "IndexError"]
+
+def ofChars (s : Str) : SExp := ofStr (String.ofList s)
+
+def ofToken : Token → SExp
+  | .atom s => .list [.atom "ATOM", ofChars s]
+  | .bond s => .list [.atom "BOND", ofChars s]
+  | .bstart => .list [.atom "BRANCH_START", ofChars ['(']]
+  | .bend => .list [.atom "BRANCH_END", ofChars [')']]
+  | .ring d => .list [.atom "RING_NUM", ofChars d]
+  | .wild => .list [.atom "WILDCARD", ofChars ['R']]
+  | t@(.rc _ _) => .list [.atom "RC_BOND", ofChars t.chars]
+  | t@(.label _) => .list [.atom "NODE_LABEL", ofChars t.chars]
+  | .mismatch c => .list [.atom "MISMATCH", ofChars [c]]
+
+/-! canonical (order-insensitive) view of a graph: nodes sorted by id, edges as sorted
+    `(min max label)` without keys -/
+
+def labelKey : Label → List Int
+  | .s o => [0, o, 0]
+  | .p g h => [1, g, h]
+  | .nil => [2, 0, 0]
+
+def lexLe : List Int → List Int → Bool
+  | [], _ => true
+  | _ :: _, [] => false
+  | a :: as, b :: bs => a < b || (a == b && lexLe as bs)
+
+def insertBy {α} (key : α → List Int) (x : α) : List α → List α
+  | [] => [x]
+  | y :: ys => if lexLe (key x) (key y) then x :: y :: ys else y :: insertBy key x ys
+
+def sortBy {α} (key : α → List Int) (l : List α) : List α := l.foldr (insertBy key) []
+
+def edgeSortKey (e : Int × Int × Label) : List Int := e.1 :: e.2.1 :: labelKey e.2.2
+
+def normEdge (e : Int × Int × Label) : Int × Int × Label := (min e.1 e.2.1, max e.1 e.2.1, e.2.2)
+
+def canonOf (multi : Bool) (nodes : List (Int × NodeAttr)) (edges : List (Int × Int × Label)) : SExp :=
+  .list [ofBool multi,
+         ofList ofNode (sortBy (fun n => [n.1]) nodes),
+         ofList (fun (e : Int × Int × Label) => .list [ofInt e.1, ofInt e.2.1, ofLabel e.2.2])
+           (sortBy edgeSortKey (edges.map normEdge))]
+
+def canonGraph (g : Graph) : SExp :=
+  canonOf g.multi g.nodes (g.edges.map fun e => (e.1, e.2.1, e.2.2.2))
+
+def graphEq (a b : Graph) : Bool := ofGraph a == ofGraph b
+
+def asImplGraph : SExp → Option (Option Graph)
+  | .list [.atom "raised", _] => some none
+  | x => (asGraph x).map some
+
+def handle : List SExp → Option SExp
+  -- (lex <str> <chain|_> <impl tokens>)
+  | [.atom "lex", s, c, impl] => do
+      let s ← asStr s
+      let c ← asOpt asChain c
+      let toks := ofList ofToken (lex s.toList)
+      let want := c.map fun c => ofList ofToken c.render
+      let specModel := match want with | some w => toks == w | none => true
+      let specImpl := match want with | some w => ofBool (impl == w) | none => none'
+      pure (.list [.atom "ok", toks, ofBool specModel, specImpl])
+  -- (wf <multi> <chain>)
+  | [.atom "wf", m, c] => do
+      let m ← asBool m
+      let c ← asChain c
+      pure (.list [.atom "ok", ofBool (WF m c), ofBool (WFcore c), ofStr (renderStr c)])
+  -- (check <multi> <aam> <off> <chain> <str> <impl exact graph|raised> <impl canon|raised>)
+  | [.atom "check", m, a, off, c, s, exact, impl] => do
+      let m ← asBool m
+      let a ← asBool a
+      let off ← asInt off
+      let c ← asChain c
+      let s ← asStr s
+      let exact ← asImplGraph exact
+      if renderStr c != s then none
+      let want := canonOf m (denoteNodes c off a) (denoteEdges c off)
+      let d := denote c off a m
+      match parse ⟨m, a⟩ s off with
+      | .ok g =>
+        let exactEq := match exact with | some e => ofBool (graphEq g e) | none => none'
+        pure (.list [.atom "ok", canonGraph g, ofBool (canonGraph g == want), ofBool (impl == want),
+                     exactEq, ofBool (graphEq g d), ofBool (WF m c)])
+      | .error e =>
+        pure (.list [.atom "ok", ofErr e, ofBool false, ofBool (impl == want), none', ofBool false, ofBool (WF m c)])
+  -- (parse <multi> <aam> <off> <str> <impl canon|raised>)
+  | [.atom "parse", m, a, off, s, _impl] => do
+      let m ← asBool m
+      let a ← asBool a
+      let off ← asInt off
+      let s ← asStr s
+      match parse ⟨m, a⟩ s off with
+      | .ok g => pure (.list [.atom "ok", canonGraph g, ofBool true, none'])
+      | .error e => pure (.list [.atom "ok", ofErr e, ofBool true, none'])
+  -- (parsex <multi> <aam> <off> <str>)  exact model graph (for other builders / debugging)
+  | [.atom "parsex", m, a, off, s] => do
+      let m ← asBool m
+      let a ← asBool a
+      let off ← asInt off
+      let s ← asStr s
+      match parse ⟨m, a⟩ s off with
+      | .ok g => pure (.list [.atom "ok", ofGraph g, ofBool true, none'])
+      | .error e => pure (.list [.atom "ok", ofErr e, ofBool true, none'])
+  | _ => none
+
 end C01
